@@ -81,6 +81,25 @@ outputBufferPairs:
             tls: false
             secret: ""
             maxDuration: %s
+%s`
+
+const agentSecondOutput = `  - name: second
+    buffer:
+        type: hybridBuffer
+        rootPath: %s
+        maxBufSize: 1GB
+    output:
+        type: fluentdForward
+        serialization:
+            environmentFields: [host, app]
+            hiddenFields: []
+            rewriteFields: {}
+        messageMode: Forward
+        upstream:
+            address: %s
+            tls: false
+            secret: ""
+            maxDuration: 1h
 `
 
 // ---- scripted upstream ----
@@ -233,6 +252,9 @@ type agentScript struct {
 	hostile    bool // an additional client per generation sends hostile byte streams and disconnects abruptly
 	earlyDrops bool // some records are dropped by an input-stage extraction (C19: known finding F-12)
 	chatty     bool // one more client keeps sending (gaps shorter than the flush interval) right through every stop
+	linger     bool // client connections stay open through the stop
+	twoOut     bool // a second output with its own upstream, which never ACKs before the last generation
+	quietLast  bool // the last generation receives no new records
 }
 
 func (s agentScript) op() Op {
@@ -245,7 +267,7 @@ func (s agentScript) op() Op {
 		up = "-"
 	}
 	return Op{Name: "agent script", Strs: []string{s.mode, s.quota, up, strings.Join(stop, ",")},
-		Ints: []int64{int64(s.maxDurMs), int64(s.gens), int64(s.conns), int64(s.recs), int64(s.apps), s.seed, b2i(s.hostile), b2i(s.earlyDrops), b2i(s.chatty)}}
+		Ints: []int64{int64(s.maxDurMs), int64(s.gens), int64(s.conns), int64(s.recs), int64(s.apps), s.seed, b2i(s.hostile), b2i(s.earlyDrops), b2i(s.chatty), b2i(s.linger), b2i(s.twoOut), b2i(s.quietLast)}}
 }
 
 func b2i(b bool) int64 {
@@ -257,7 +279,8 @@ func b2i(b bool) int64 {
 
 func agentScriptOf(o Op) agentScript {
 	s := agentScript{mode: o.Strs[0], quota: o.Strs[1], maxDurMs: int(o.Ints[0]), gens: int(o.Ints[1]), conns: int(o.Ints[2]),
-		recs: int(o.Ints[3]), apps: int(o.Ints[4]), seed: o.Ints[5], hostile: len(o.Ints) > 6 && o.Ints[6] != 0, earlyDrops: len(o.Ints) > 7 && o.Ints[7] != 0, chatty: len(o.Ints) > 8 && o.Ints[8] != 0}
+		recs: int(o.Ints[3]), apps: int(o.Ints[4]), seed: o.Ints[5], hostile: len(o.Ints) > 6 && o.Ints[6] != 0, earlyDrops: len(o.Ints) > 7 && o.Ints[7] != 0, chatty: len(o.Ints) > 8 && o.Ints[8] != 0, linger: len(o.Ints) > 9 && o.Ints[9] != 0,
+		twoOut: len(o.Ints) > 10 && o.Ints[10] != 0, quietLast: len(o.Ints) > 11 && o.Ints[11] != 0}
 	if o.Strs[2] != "-" {
 		s.upScript = strings.Split(o.Strs[2], ",")
 	}
@@ -270,11 +293,15 @@ func agentScriptOf(o Op) agentScript {
 
 // observation of one run (canonical text, one token per fact)
 type agentObs struct {
-	sent      []string         // stamps sent and not filtered, in send order per connection: "g<gen>c<conn>a<app>-<seq>"
-	filtered  int              // records sent that the drop filter removes
-	early     int              // records sent that an input-stage extraction drops
-	malformed int              // lines sent that are not records
-	chunks    []*upChunk       // everything the upstream received, in order
+	sent      []string   // stamps sent and not filtered, in send order per connection: "g<gen>c<conn>a<app>-<seq>"
+	filtered  int        // records sent that the drop filter removes
+	early     int        // records sent that an input-stage extraction drops
+	malformed int        // lines sent that are not records
+	chunks    []*upChunk // everything the upstream received, in order
+	chunks2   []*upChunk // the same for the second output's upstream (if configured)
+	twoOut    bool
+	linger    bool
+	stuck     bool             // the last generation ran 8 s against healthy upstreams without delivering everything
 	stopMs    []int64          // duration of each graceful stop
 	filesLeft []int            // chunk files in the queue directories after each stop
 	metrics   map[string]int64 // summed over generations
@@ -301,6 +328,7 @@ func runAgent(sc agentScript) (obs agentObs) {
 	})
 	agentSeq++
 	obs.metrics = map[string]int64{}
+	obs.linger = sc.linger
 	if agentHung {
 		// an earlier run of this process never returned from its stop; its goroutines still hold ports and files
 		obs.panics = append(obs.panics, "generation 0: the stop did not return within 12 s (seen in an earlier case of this run; not retried)")
@@ -319,7 +347,15 @@ func runAgent(sc agentScript) (obs agentObs) {
 	if sc.maxDurMs > 0 {
 		maxDur = fmt.Sprintf("%dms", sc.maxDurMs)
 	}
-	os.WriteFile(confPath, []byte(fmt.Sprintf(agentConfTemplate, bufDir, sc.quota, sc.mode, up.addr(), maxDur)), 0o644)
+	second := ""
+	var up2 *upstream
+	if sc.twoOut {
+		up2 = newUpstream([]string{"noack", "noack", "noack", "noack", "noack", "noack", "noack", "noack"})
+		defer up2.close()
+		second = fmt.Sprintf(agentSecondOutput, filepath.Join(root, "buf2"), up2.addr())
+		obs.twoOut = true
+	}
+	os.WriteFile(confPath, []byte(fmt.Sprintf(agentConfTemplate, bufDir, sc.quota, sc.mode, up.addr(), maxDur, second)), 0o644)
 
 	for g := 0; g < sc.gens && !agentHung; g++ {
 		last := g == sc.gens-1
@@ -339,7 +375,13 @@ func runAgent(sc agentScript) (obs agentObs) {
 			addrs, shutdownInputs := ld.LaunchInputs(orc)
 			var wg sync.WaitGroup
 			var mu sync.Mutex
-			for c := 0; c < sc.conns; c++ {
+			release := make(chan struct{}) // lingering connections are closed only after the stop
+			var lingering sync.WaitGroup
+			nconns := sc.conns
+			if last && sc.quietLast && sc.gens > 1 {
+				nconns = 0
+			}
+			for c := 0; c < nconns; c++ {
 				wg.Add(1)
 				crng := rand.New(rand.NewSource(rng.Int63()))
 				go func(c int) {
@@ -348,7 +390,12 @@ func runAgent(sc agentScript) (obs agentObs) {
 					if err != nil {
 						return
 					}
-					defer conn.Close()
+					if sc.linger {
+						lingering.Add(1)
+						go func() { <-release; conn.Close(); lingering.Done() }()
+					} else {
+						defer conn.Close()
+					}
 					w := bufio.NewWriter(conn)
 					for i := 0; i < sc.recs; i++ {
 						app := fmt.Sprintf("app%d", crng.Intn(sc.apps))
@@ -417,7 +464,7 @@ func runAgent(sc agentScript) (obs agentObs) {
 			mu.Lock()
 			want := int64(len(obs.sent)+obs.filtered+obs.malformed+obs.early) - linesBefore
 			mu.Unlock()
-			for deadline := time.Now().Add(3 * time.Second); time.Now().Before(deadline); {
+			for deadline := time.Now().Add(3 * time.Second); !(sc.linger && !last) && time.Now().Before(deadline); {
 				mm := dumpGatherer(ld.GetMetricGatherer())
 				if mm["input_passed_records_total"]+mm["input_dropped_records_total"] >= want {
 					break
@@ -426,10 +473,15 @@ func runAgent(sc agentScript) (obs agentObs) {
 			}
 			if last {
 				up.setHealthy()
+				if up2 != nil {
+					up2.setHealthy()
+				}
 				// wait until everything has been acknowledged (bounded)
 				deadline := time.Now().Add(8 * time.Second)
+				obs.stuck = true
 				for time.Now().Before(deadline) {
-					if agentAllDelivered(&obs, up) {
+					if agentAllDelivered(&obs, up) && (up2 == nil || agentAllDelivered(&obs, up2)) {
+						obs.stuck = false
 						break
 					}
 					time.Sleep(10 * time.Millisecond)
@@ -452,6 +504,8 @@ func runAgent(sc agentScript) (obs agentObs) {
 				obs.panics = append(obs.panics, fmt.Sprintf("generation %d: the stop did not return within 12 s", g))
 				agentHung = true
 			}
+			close(release)
+			lingering.Wait()
 			select {
 			case <-chattyDone:
 			case <-time.After(2 * time.Second):
@@ -463,7 +517,7 @@ func runAgent(sc agentScript) (obs agentObs) {
 				}
 			}
 			n := 0
-			filepath.Walk(bufDir, func(p string, info os.FileInfo, err error) error {
+			filepath.Walk(root, func(p string, info os.FileInfo, err error) error {
 				if err == nil && !info.IsDir() && strings.HasSuffix(p, ".ff") {
 					n++
 				}
@@ -475,6 +529,11 @@ func runAgent(sc agentScript) (obs agentObs) {
 	up.mu.Lock()
 	obs.chunks = append(obs.chunks, up.chunks...)
 	up.mu.Unlock()
+	if up2 != nil {
+		up2.mu.Lock()
+		obs.chunks2 = append(obs.chunks2, up2.chunks...)
+		up2.mu.Unlock()
+	}
 	return obs
 }
 
@@ -667,8 +726,41 @@ func (a *agentComp) Oracle(c Case, impl []string) string {
 
 // C01: every record sent and not filtered is acknowledged at least once, unaltered, or still on disk, unless counted dropped
 func oracleC01(obs agentObs) string {
+	if obs.linger {
+		// connections were still open at the stops, so not every record sent was read; what was read and parsed is known from
+		// the input counter: all of it must have reached a pipeline, and all that passed the pipelines must have been delivered
+		m := obs.metrics
+		inPass, pPass, pDrop := m["input_passed_records_total"], m["process_passed_records_total"], m["process_dropped_records_total"]
+		if inPass != pPass+pDrop {
+			return fmt.Sprintf("[key=e2e-lost-before-pipeline] %d record(s) were read and parsed (input passed %d) but never reached a pipeline (passed %d + dropped %d): lost at a stop while their connection was open", inPass-pPass-pDrop, inPass, pPass, pDrop)
+		}
+		distinct := map[string]bool{}
+		for _, ch := range obs.chunks {
+			if ch.acked {
+				for _, s := range ch.stamps {
+					distinct[strings.SplitN(s, "|", 2)[0]] = true
+				}
+			}
+		}
+		if m["process_buffer_dropped_chunks_total"] == 0 && !obs.stuck && int64(len(distinct)) < pPass {
+			return fmt.Sprintf("[key=e2e-lost] pipelines passed %d records, the upstream acknowledged %d distinct ones, nothing was counted as dropped", pPass, len(distinct))
+		}
+		return ""
+	}
+	if msg := oracleC01Output(obs, obs.chunks, "buf"); msg != "" {
+		return msg
+	}
+	if obs.twoOut {
+		if msg := oracleC01Output(obs, obs.chunks2, "buf2"); msg != "" {
+			return strings.Replace(msg, "] ", "] second output: ", 1)
+		}
+	}
+	return ""
+}
+
+func oracleC01Output(obs agentObs, chunks []*upChunk, which string) string {
 	acked := map[string]string{}
-	for _, ch := range obs.chunks {
+	for _, ch := range chunks {
 		if !ch.acked {
 			continue
 		}
@@ -698,6 +790,9 @@ func oracleC01(obs agentObs) string {
 		if len(q) < 2 || q[1] != p[1] {
 			return fmt.Sprintf("[key=e2e-altered] record %s was delivered with message %q, sent %q", p[0], q[1], p[1])
 		}
+	}
+	if missing > 0 && dropped == 0 && obs.stuck && lastFiles > 0 {
+		return fmt.Sprintf("[key=e2e-stuck] %d record(s) were still undelivered (their chunks sit in the queue directory) after the agent had run 8 s against a healthy upstream", missing)
 	}
 	if missing > 0 && dropped == 0 && lastFiles == 0 {
 		return fmt.Sprintf("[key=e2e-lost] %d record(s) were neither acknowledged by the upstream nor left on disk, and no chunk was counted as dropped", missing)
@@ -839,6 +934,24 @@ func (a *agentComp) Generate(rng *rand.Rand, n int, emit func(Case)) {
 		}
 		if a.prop == "c19" && i%4 == 0 {
 			sc.earlyDrops = true
+		}
+		if a.prop == "c01" {
+			switch i % 4 {
+			case 1:
+				sc.linger = true
+			case 2:
+				sc.twoOut = true
+				sc.quietLast = true
+				if sc.gens < 2 {
+					sc.gens = 2
+					sc.stopMs = []int{30}
+				}
+			case 3:
+				// many chunks per pipeline and faults in consecutive sessions
+				sc.recs = 150 + rng.Intn(150)
+				sc.apps = 1
+				sc.upScript = append([]string{"noack", "reset:1", "reset:0"}, sc.upScript...)
+			}
 		}
 		if a.prop == "c18" && i%2 == 0 {
 			sc.chatty = true
